@@ -251,6 +251,39 @@ fn finish(
     rep: vlib_report::RunReport,
     t0: std::time::Instant,
 ) -> i32 {
+    // units of the run-time corpus that rustc rejected: every one of them is a well-formed declaration
+    // of the documented grammar (the generators are sound by construction), so
+    //  * C07: a rejection located in the wildcard-free error mapping means the generated error enum does
+    //    not have exactly the declared variants;
+    //  * C08 (accept side) is told about every other rejection when it runs (cprops::run_c08).
+    let mut rep = rep;
+    if prop == "C07" {
+        for (id, why) in &built.rejected {
+            if why.starts_with("E0004") || why.starts_with("E0599") || why.starts_with("E0026") || why.starts_with("E0027") {
+                if let Some(d) = decls.iter().find(|d| &d.id == id) {
+                    rep.viols.push(vlib_report::Viol {
+                        prop: "C07".into(),
+                        decl_id: id.clone(),
+                        type_name: d.type_name.clone(),
+                        decl: d.decl_text(),
+                        signature: format!("C07|error-enum-variant-set-mismatch|{}", why.split_whitespace().next().unwrap_or("")),
+                        case: json!({"compile_error": why}),
+                        expected: "error enum with exactly one variant per declared validator (wildcard-free match compiles)".into(),
+                        actual: why.clone(),
+                        shrunk: "none".into(),
+                    });
+                }
+            }
+        }
+    }
+    if prop == "C02" {
+        // vacuity guard: rejection is an allowed outcome, but not for (almost) everything
+        let accepted = decls.len() - built.rejected.len();
+        if accepted * 2 < decls.len() {
+            eprintln!("INCONCLUSIVE: only {accepted} of {} C02 units were accepted by rustc — the check would be vacuous", decls.len());
+            return 2;
+        }
+    }
     let known = findings::load(&env.verif);
     let mut known_hit: BTreeMap<String, (String, u64)> = BTreeMap::new();
     let mut new_viols: Vec<&vlib_report::Viol> = vec![];
